@@ -403,7 +403,7 @@ func main() {
 	clk.Install()
 	root := rng.New(a.Seed)
 	rep := emit.NewReport("C06", a.Seed, a.Tier)
-	rep.Rule = "1-2 resources x 1-2 hotspot rules (concurrency with either control behaviour, thresholds 0-5, specific items incl. 0 and -1, ParamIndex 0/1/-1/-2/3, ParamKey, ParamsMaxCapacity 0(default 4000)/1-3; sometimes a QPS rule before or after), 25-64 operations: entries over 1-4 values of kinds int/int64/int32/uint8/string/bool/float64/float32/struct (plus nil, -0.0, NaN) kept alive together and exited in random order, exits of blocked / already exited entries, optional drain of all live entries. One case in ten guards each resource with 2-3 concurrency rules bound to different argument positions (0, 1, -1 / ParamKey) and interleaves entries whose arguments differ per position with entries carrying no arguments at all, then drains and re-enters. Plus, monitor only: 300 two-phase schedules (2-4 goroutines parked at yield 400 between the rule check and the statistic slots, exits of counted entries in between; conservation and the sequential decision asserted at quiescent points) and 4 real-thread configurations (two steady: 8-16 goroutines x 1500 Entry/Exit pairs per round on 1-3 cached values; two first-access: up to 4000 rounds in which 16-32 goroutines are released together on 1-2 fresh values never seen before; argument by index or ParamKey; at quiescence every cell reads zero and exactly `threshold` sequential entries per value are admitted). One case in three is driven by a caller that re-uses ONE argument slice and ONE attachment map for all requests and overwrites them after every Entry; one in three has a reload of the unchanged rules in progress (LoadRules / LoadRulesOfResource with a probe rule whose controller generator runs the next 0-5 operations, and fails in a third of them): decisions, counters and controller lists must be as without it. Non-trivial = at least one admission and one rejection; distinct by full input."
+	rep.Rule = "1-2 resources x 1-2 hotspot rules (concurrency with either control behaviour, thresholds 0-5, specific items incl. 0 and -1, ParamIndex 0/1/-1/-2/3, ParamKey, ParamsMaxCapacity 0(default 4000)/1-3; sometimes a QPS rule before or after), 25-64 operations: entries over 1-4 values of kinds int/int64/int32/uint8/string/bool/float64/float32/struct (plus nil, -0.0, NaN) kept alive together and exited in random order, exits of blocked / already exited entries, optional drain of all live entries. One case in ten guards each resource with 2-3 concurrency rules bound to different argument positions (0, 1, -1 / ParamKey) and interleaves entries whose arguments differ per position with entries carrying no arguments at all, then drains and re-enters. Plus, monitor only: 300 two-phase schedules (2-4 goroutines parked at yield 400 between the rule check and the statistic slots, exits of counted entries in between; conservation and the sequential decision asserted at quiescent points) and 4 real-thread configurations (two steady: 8-16 goroutines x 1500 Entry/Exit pairs per round on 1-3 cached values, in one of them every admitted entry is handed to a partner goroutine and exited by both at once; two first-access: up to 4000 rounds in which 16-32 goroutines are released together on 1-2 fresh values never seen before; argument by index or ParamKey; at quiescence every cell reads zero and exactly `threshold` sequential entries per value are admitted). One case in three is driven by a caller that re-uses ONE argument slice and ONE attachment map for all requests and overwrites them after every Entry; one in three has a reload of the unchanged rules in progress (LoadRules / LoadRulesOfResource with a probe rule whose controller generator runs the next 0-5 operations, and fails in a third of them): decisions, counters and controller lists must be as without it. Non-trivial = at least one admission and one rejection; distinct by full input."
 	nCorr := a.Pick(a.N, 230, 6000)
 	nMon := a.Pick(a.Mon, 4000, 80000)
 	if a.Search {
